@@ -43,6 +43,15 @@ closestPoints (
     T       d    = 1 - d1d2 * d1d2;
     T       absD = abs (d);
 
+    //
+    // d is the squared sine of the angle between the lines, computed
+    // with an absolute error of a few epsilon: below that the lines
+    // are parallel as far as can be told, and n1 / d and n2 / d would
+    // be the ratio of two rounding errors.
+    //
+
+    if (absD <= T (8) * std::numeric_limits<T>::epsilon ()) return false;
+
     if ((absD > 1) || (abs (n1) < std::numeric_limits<T>::max () * absD &&
                        abs (n2) < std::numeric_limits<T>::max () * absD))
     {
